@@ -365,7 +365,9 @@ func mergeBlocks(closeCh <-chan struct{}, bw *blockWriter, br *blockReader, conf
 		tmpBlock2.reset()
 		tmpBlock2.append(tmpBlock, l)
 		bw.mustWriteBlock(tmpBlock.bm.seriesID, &tmpBlock2.block)
-		releaseDecoder()
+		// The decoder is not released here: the tail kept in pendingBlock still holds
+		// column values that are slices into the decoder's buffer. It is released once
+		// pendingBlock has been written.
 	}
 	if err := br.error(); err != nil {
 		return nil, nil, fmt.Errorf("cannot read block to merge: %w", err)
